@@ -6,5 +6,23 @@ CHECKS = {
         "note": "Exhaustive only up to 3 nodes (cycles included); 5-node walks are sampled. Trusted: TLC, the set-theoretic definitions in MixedGraph.tla, the 60-line projection in harness/ser.py.",
         "technique": "TLA+ state machine + TLC model checking; TLC-generated behaviours replayed into the implementation (spec-to-code conformance)",
     },
+    "C04": {
+        "text": "Separation.tla defines m-separation three independent ways (open simple paths; ancestral moral graph of the canonical latent DAG; sigma-reachability over (node, arrival mark)); TLC proves them equal and symmetric on every ADMG with <= 4 nodes (SepMachine MC) and prints each graph's verdict table; the real are_d_separated is then replayed for every ordered pair, every conditioning set (with duplicates/shuffled conditions) and 2 insertion orders against those tables, and the returned judgement's fields are checked for canonical form.",
+        "ref": "DESIGN.md section 4/C04",
+        "note": "Exhaustive on all 200 three-node and all 4096 topologically numbered four-node ADMGs (thorough: all 34752 labelled ones), seeded samples on 5 nodes. Trusted: TLC and the path definition MSepPath.",
+        "technique": "TLA+ specification of separation, TLC model checking of definition equivalence, TLC-generated verdict tables replayed against the implementation",
+    },
+    "C15": {
+        "text": "From TLC's m-separation tables (Separation.tla: SepTable, MinSizes) the set of separable pairs and the minimum separator size of each pair are derived for every ADMG <= 4 nodes; get_conditional_independencies is replayed for 7 size limits x 2 built-in policies x 2 insertion orders and every returned judgement must be a true separation of the table, canonical, of minimum size, one per pair, with exactly the pairs the limit allows.",
+        "ref": "DESIGN.md section 4/C15",
+        "note": "The size limit is accepted as inclusive or exclusive (two-sided bound); exhaustive <= 4 nodes, sampled at 5. Trusted: TLC, MSepPath.",
+        "technique": "TLA+ specification + TLC-generated oracle tables replayed against the implementation",
+    },
+    "C20": {
+        "text": "SigmaSep (walk-based sigma-separation with strongly connected components) is model-checked by TLC to coincide with m-separation on every ADMG <= 4 nodes and to be symmetric and adjacency-respecting on every mixed graph with 3 nodes; are_sigma_separated is replayed for every pair in both argument orders and every conditioning set against TLC's tables (agreement on ADMGs; symmetry and adjacency on cyclic graphs). A literal TLA+ transcription of y0's path criterion (SigmaY0Sep) names the known deviation so that its failures are attributed by call site.",
+        "ref": "DESIGN.md section 4/C20, 5.2",
+        "note": "Known finding sigma-collider-depth-1 (needs >= 5 nodes) is reported, everything else is gated. Exhaustive <= 4 nodes (ADMG) / 3 nodes (cyclic), fixed 64-graph 5-node family, seeded 5-node samples in thorough.",
+        "technique": "TLA+ specification + TLC model checking + replay of TLC verdict tables; named implementation-shaped deviation for the known finding",
+    },
 }
 NOT_YET = {}
